@@ -1,0 +1,56 @@
+//! Verification hooks. Only compiled with `--cfg tera_verif`; never part of a normal build.
+//!
+//! Each hook is a plain `fn` pointer kept in a thread-local `Cell`, so calling it never holds a
+//! borrow (a callback is free to re-enter the engine or to switch to another simulated task).
+use std::cell::Cell;
+use std::path::Path;
+
+/// Called at the top of every VM instruction dispatch.
+pub type StepHook = fn();
+/// Called at the end of a successful top-level render with the lengths of the value stack, the
+/// loop stack and the capture stack.
+pub type EndOfRenderHook = fn(usize, usize, usize);
+/// Called at named points of the file loading path with the path being loaded.
+pub type FaultPointHook = fn(&'static str, &Path);
+
+thread_local! {
+    static STEP: Cell<Option<StepHook>> = const { Cell::new(None) };
+    static END_OF_RENDER: Cell<Option<EndOfRenderHook>> = const { Cell::new(None) };
+    static FAULT_POINT: Cell<Option<FaultPointHook>> = const { Cell::new(None) };
+}
+
+/// Installs (or removes) the per-instruction hook for the current thread.
+pub fn set_step_hook(hook: Option<StepHook>) {
+    STEP.with(|h| h.set(hook));
+}
+
+/// Installs (or removes) the end-of-render hook for the current thread.
+pub fn set_end_of_render_hook(hook: Option<EndOfRenderHook>) {
+    END_OF_RENDER.with(|h| h.set(hook));
+}
+
+/// Installs (or removes) the file loading fault point hook for the current thread.
+pub fn set_fault_point_hook(hook: Option<FaultPointHook>) {
+    FAULT_POINT.with(|h| h.set(hook));
+}
+
+#[inline]
+pub(crate) fn step() {
+    if let Some(hook) = STEP.with(|h| h.get()) {
+        hook();
+    }
+}
+
+#[inline]
+pub(crate) fn end_of_render(stack: usize, for_loops: usize, capture_buffers: usize) {
+    if let Some(hook) = END_OF_RENDER.with(|h| h.get()) {
+        hook(stack, for_loops, capture_buffers);
+    }
+}
+
+#[inline]
+pub(crate) fn fault_point(site: &'static str, path: &Path) {
+    if let Some(hook) = FAULT_POINT.with(|h| h.get()) {
+        hook(site, path);
+    }
+}
